@@ -394,14 +394,14 @@ theorem late_call_raises (cb : Bytes) (fb : List Bytes) (sch0 : List Label) (c :
 
 /-- **loss is detected at any byte**: a listening client whose stream ended inside a frame (or
     between frames), or whose transport failed, leaves through the cleanup with `lost` -/
-theorem loss_detected (s : St) (hl : s.lst = .listening)
+theorem loss_detected (s : St) (hl : s.lst = .listening) (hs : s.serving = none)
     (h : s.inErr = true ∨ (s.eof = true ∧ decodeFrame s.inbuf = none)) :
     step s .recv = some (s.lexit .lost) := by
   rcases h with h | ⟨h1, h2⟩
-  · simp [step, hl, h]
+  · simp [step, hl, hs, h]
   · by_cases he : s.inErr = true
-    · simp [step, hl, he]
-    · simp [step, hl, he, h1, h2]
+    · simp [step, hl, hs, he]
+    · simp [step, hl, hs, he, h1, h2]
 
 /-- every cut of a frame — inside the id, inside the length, inside the body, or before its first
     byte — leaves an incomplete buffer (own copy of C13's `incomplete_tail`) -/
@@ -424,12 +424,13 @@ theorem cut_anywhere_incomplete (id : Nat) (body : Bytes) (hb : body.length < 42
     simp; omega
 
 theorem loss_fails_aux (s : St) (hB : InvB s) (sch : List Label) (c : Nat)
-    (hl : s.lst = .listening) (ha : awaiting (s.calls c).phase = true) (hf : (s.calls c).fut = .unres)
+    (hl : s.lst = .listening) (hsv : s.serving = none)
+    (ha : awaiting (s.calls c).phase = true) (hf : (s.calls c).fut = .unres)
     (hloss : s.inErr = true ∨ (s.eof = true ∧ decodeFrame s.inbuf = none))
     (hex : (run s (.recv :: sch)).lst = .exited) :
     ((run s (.recv :: sch)).calls c).fut = .failed .lost ∧
       ∀ o, ((run s (.recv :: sch)).calls c).phase = .done o → o = .exc .lost ∨ o = .sendErr := by
-  have hrecv := loss_detected s hl hloss
+  have hrecv := loss_detected s hl hsv hloss
   have hv := hB.fixed
   have hmem : c ∈ s.pending := hB.listenOwes hl c (by
     cases hp : (s.calls c).phase <;> simp [hp, awaiting, active] at ha ⊢) hf
@@ -454,14 +455,15 @@ theorem loss_fails_aux (s : St) (hB : InvB s) (sch : List Label) (c : Nat)
     with `lost`, and `c` can only finish by raising -/
 theorem loss_anywhere_fails_pending (cb : Bytes) (fb : List Bytes) (sch0 sch : List Label) (c : Nat) :
     let s := run (init .fixed cb fb) sch0
-    s.lst = .listening → awaiting (s.calls c).phase = true → (s.calls c).fut = .unres →
+    s.lst = .listening → s.serving = none →
+    awaiting (s.calls c).phase = true → (s.calls c).fut = .unres →
     (s.inErr = true ∨ (s.eof = true ∧ decodeFrame s.inbuf = none)) →
     let s' := run s (.recv :: sch)
     s'.lst = .exited →
       (s'.calls c).fut = .failed .lost ∧
       ∀ o, (s'.calls c).phase = .done o → o = .exc .lost ∨ o = .sendErr := by
-  intro s hl ha hf hloss s' hex
-  exact loss_fails_aux s (reach_invB cb fb sch0) sch c hl ha hf hloss hex
+  intro s hl hsv ha hf hloss s' hex
+  exact loss_fails_aux s (reach_invB cb fb sch0) sch c hl hsv ha hf hloss hex
 
 example :
     let sch0 := [Label.check 0 false, .reg 0, .submit 0, .send 0, .drain 0, .check 1 false,
@@ -504,18 +506,25 @@ theorem server_error_propagates (cb : Bytes) (fb : List Bytes) (sch : List Label
 
 /-- when the server goes away the listener always has a step to take (it cannot sit on EOF) -/
 theorem eof_listener_progress (s : St) (hl : s.lst = .listening) (he : s.eof = true) :
-    enabled s .recv = true := by
-  simp only [enabled, step, hl]
-  by_cases hi : s.inErr = true
-  · simp [hi]
-  · simp only [hi]
-    cases hd : decodeFrame s.inbuf with
-    | none => simp [he]
-    | some f =>
-      obtain ⟨id, body, rest⟩ := f
-      simp only []
-      repeat' split
-      all_goals simp_all
+    enabled s .recv = true ∨ enabled s .served = true := by
+  cases hsv : s.serving with
+  | some p =>
+    right
+    obtain ⟨id, body⟩ := p
+    simp only [enabled, step, hsv, hl]
+    repeat' split
+    all_goals (first | rfl | contradiction | simp)
+  | none =>
+    left
+    by_cases hi : s.inErr = true
+    · simp [enabled, step, hl, hsv, hi]
+    · cases hd : decodeFrame s.inbuf with
+      | none => simp [enabled, step, hl, hsv, hi, hd, he]
+      | some f =>
+        obtain ⟨id, body, rest⟩ := f
+        simp only [enabled, step, hl, hsv, hi, hd]
+        repeat' split
+        all_goals (first | rfl | contradiction | simp)
 
 /-! ### the pinned cleanup loop violates `no_stuck_waiter` -/
 
